@@ -244,8 +244,9 @@ func (vc *VC) instr1(in ssa.Instruction, h *Heap) {
 	case *ssa.Send:
 		vc.note("channel send: not modelled")
 	case *ssa.Select:
-		vc.note("select: results abstracted")
+		vc.note("select: which case fires and what is received are arbitrary; blocking is not modelled")
 		r := vc.freshVals(x.Name(), x.Type())
+		vc.assumeRanges("true", r, x.Type(), *h)
 		vc.vals[x] = r
 	default:
 		if v, ok := in.(ssa.Value); ok {
